@@ -211,7 +211,8 @@ def conclude(prop, tier, seed, specs, results, metas, crashes, nat, group_wall, 
     for r in violations:
         spec = oblig.GROUPS.get((prop, r.get("group")))
         rep = None
-        if spec is not None and spec.kind == "P" and spec.env == "shim" and r.get("witness") and r["backend"] != "native-eval":
+        if spec is not None and spec.kind == "P" and spec.env == "shim" and not spec.opts.get("plain") and not spec.opts.get("no_native") \
+                and r.get("witness") and r["backend"] != "native-eval":
             g = spec.name
             if replays_per_group.get(g, 0) < 2 and sum(replays_per_group.values()) < 8:
                 rep = native_replay(prop, spec.name, r["witness"])
@@ -231,7 +232,7 @@ def conclude(prop, tier, seed, specs, results, metas, crashes, nat, group_wall, 
             undecided.append(r)
             continue
         path = write_replay(prop, r, {"native_replay": rep})
-        tail = "" if (native_fail or (spec is not None and spec.kind in ("G", "B") and r["status"] == "refuted")) else " no-failing-input-found"
+        tail = "" if (native_fail or (r["status"] == "refuted" and r.get("concrete_input") and r.get("witness"))) else " no-failing-input-found"
         confirmed.append(r)
         lines.append("VIOLATION property=%s replay=%s obligation=%s%s" % (prop, path, r["name"], tail))
     for kf, r in knowns:
